@@ -1,6 +1,6 @@
 \* exhaustive check of the closed model (history hidden by VIEW), semantics the statements need
 CONSTANTS Catalogs = {1, 2, 3}  Limits = {0, 1, 2, 3, 4}  Daemons = {0, 1}  Batches = {1, 2, 3, 4}  Laters = {0, 1, 2}
-CONSTANTS MaxRounds = 3  MaxClaims = 3  MaxSteps = 8  Resyncs = {FALSE}  EphForms = {2}  StForms = {2}
+CONSTANTS MaxRounds = 3  MaxClaims = 3  MaxSteps = 8  AllowForeign = TRUE  Resyncs = {FALSE}  EphForms = {2}  StForms = {2}
 CONSTANTS W_NoSyncGate = FALSE  W_SubMin = FALSE  W_SubDominating = FALSE  W_StartupBlocks = FALSE  W_CountMarked = FALSE  W_ZeroSkips = FALSE
           W_NoZeroFallback = FALSE  W_DaemonTwice = FALSE  W_SyncBeforeBatch = FALSE  C_NodesPerPass = FALSE  C_OverrideBase = FALSE
 SPECIFICATION Spec
